@@ -173,6 +173,21 @@ Fixpoint pfold_t (l : list pv) (acc : pv) (body : pv -> pv -> pm pv) : pm pv :=
 Definition py_for_t (c : pv) (acc : pv) (body : pv -> pv -> pm pv) : pm pv :=
   mbind (py_iter c) (fun l => pfold_t l acc body).
 
+(* the same with `break` as well: the body may also yield [VInt 1; state] (leave the loop) *)
+Fixpoint pfold_tb (l : list pv) (acc : pv) (body : pv -> pv -> pm pv) : pm pv :=
+  match l with
+  | [] => mret (VList [VInt 1%Z; acc])
+  | x :: r => mbind (body acc x) (fun o =>
+                match o with
+                | VList [VInt 0%Z; acc'] => pfold_tb r acc' body
+                | VList [VInt 1%Z; acc'] => mret (VList [VInt 1%Z; acc'])
+                | VList [VInt 2%Z; v] => mret (VList [VInt 2%Z; v])
+                | _ => mstuck
+                end)
+  end.
+Definition py_for_tb (c : pv) (acc : pv) (body : pv -> pv -> pm pv) : pm pv :=
+  mbind (py_iter c) (fun l => pfold_tb l acc body).
+
 (* loops: the body returns [VInt tag; payload] with tag 0 = go on (payload = state), 1 = leave the loop
    (payload = state), 2 = return from the function (payload = value) *)
 Fixpoint py_while (fuel : nat) (st : pv) (body : pv -> pm pv) : pm pv :=
